@@ -98,6 +98,8 @@ def child_run(argv, mode, k, out_path):
             state["calls"] += 1
             if mode == "error" and i == k:
                 raise sqlite3.OperationalError("injected fault at execute call %d" % k)
+            if mode == "locked" and i == k:
+                raise sqlite3.OperationalError("database is locked")     # another process holds the file
             if mode == "interrupt" and i == k:
                 raise KeyboardInterrupt()          # the user presses Ctrl-C while the command is writing
 
@@ -254,7 +256,7 @@ def run(ctx):
             ob2 = "file content after a fault at every statement = model crashAfter (old before the commit point, new after)"
             commit_idx = max([i for i, s in enumerate(t["stmts"]) if classify_stmt(s) == "c"] + [-1])
             faults = ([("error", k) for k in range(n_calls)] + [("kill", k) for k in range(n_traced + 1)]
-                      + [("interrupt", k) for k in range(n_calls)])
+                      + [("interrupt", k) for k in range(n_calls)] + [("locked", k) for k in range(n_calls)])
             if ctx.tier == "quick" and len(faults) > 140:
                 keep = set(range(0, 6)) | set(range(n_traced - 6, n_traced + 1))
                 faults = [f for f in faults if f[1] in keep or f[1] % max(1, len(faults) // 100) == 0]
@@ -289,7 +291,7 @@ def run(ctx):
                 ctx.count("faults_" + mode)
                 if mode == "kill" and single_after_commit(t["stmts"], k, commit_idx):
                     expect = "new"
-                elif mode in ("error", "interrupt"):
+                elif mode in ("error", "interrupt", "locked"):
                     expect = "old"
                 else:
                     expect = "old"
